@@ -1,4 +1,5 @@
 import PyYetiVerif.Model.FindapLocate
+import PyYetiVerif.Model.FindapFix
 import PyYetiVerif.Props.C10
 /-!
 # C10 (continued) — `locate.find_unique`, the helper the default `findap` is built on
@@ -40,11 +41,17 @@ theorem find_unique_length (tol : α) (y : List α) (u : List Bool) (h : findUni
       simp only [findUnique, Option.some.injEq] at h; subst h
       simp [uniqMask_length]
 
-/-- the default `findap` is `find_unique` followed by the slope-sign test on the kept samples -/
+/-- the default `findap` is `find_unique`, replaced by the mask of the sequential scan
+(`_unique_kept`) where the vectorised test fails, followed by the slope-sign test on the kept
+samples -/
 theorem findap_uses_find_unique (tol a b : α) (r : List α) :
-    findapDef tol (a :: b :: r) =
-      (findUnique tol (a :: b :: r)).map fun u => expand u (pvOf (select u (a :: b :: r))) := by
-  simp [findapDef, findapDefSt, findUnique]
+    findapDefFix tol (a :: b :: r) =
+      (findUnique tol (a :: b :: r)).map fun u =>
+        let u' := if fastOK (stol tol (a :: b :: r)) a (b :: r) then u
+                  else true :: hystMask (stol tol (a :: b :: r)) a (b :: r)
+        expand u' (pvOf (select u' (a :: b :: r))) := by
+  simp only [findapDefFix, findapDefFixSt, findUnique, fixMask, Option.map_some]
+  split <;> rfl
 
 end
 
